@@ -225,6 +225,21 @@ DEEP = [
     {"variant": "re", "singles": True, "kind": "amplitude", "size": [3, 3],
      "canonical": False, "mseed": 10, "order": 2, "rank": 3,
      "names": ["i", "j", "k", "a", "b", "c"]},
+    # third-order RE residuals (<Phi_k|H1|psi(2)> with the (k+2)-fold
+    # excited part of psi(2)), third-order two-particle expectation value
+    # (first order with a norm-factor x d^(1) product)
+    {"variant": "re", "singles": True, "kind": "amplitude", "size": [3, 3],
+     "canonical": False, "mseed": 21, "order": 3, "rank": 1,
+     "names": ["i", "a"]},
+    {"variant": "mp", "singles": False, "kind": "expectation",
+     "size": [2, 2], "canonical": True, "mseed": 22, "order": 3,
+     "n_particles": 2},
+    {"variant": "re", "singles": False, "kind": "amplitude", "size": [3, 3],
+     "canonical": False, "mseed": 23, "order": 3, "rank": 1,
+     "names": ["j", "b"]},
+    {"variant": "re", "singles": False, "kind": "expectation",
+     "size": [2, 2], "canonical": False, "mseed": 24, "order": 3,
+     "n_particles": 2},
 ]
 
 
